@@ -322,7 +322,7 @@ def run(tier):
     ratings = set()
     for name, depth in plan:
         drv = DRIVERS[name]
-        seen, info = hist.search(drv, rep, depth, merge_check=True)
+        seen, info = hist.search(drv, rep, depth, merge_check=("full" if tier == "thorough" else True))
         ratings |= info["raw_stats"].get("distinct_ratings", set())
         hs = sorted((h for h, _ in seen.values()), key=len)
         rep.sample({"driver": name, "history": [drv.ops[i] for i in hs[-1]]})
